@@ -31,8 +31,16 @@
 (* not delivered (RClaimLost).  Between DQok and DDeliver the claim may    *)
 (* still make it (if it is acknowledged before the length read): both      *)
 (* outcomes are behaviours.  `lost` collects exactly these samples.        *)
-(* Blocks never fill up in this model (fewer than 64 samples per block):   *)
-(* the block-chaining paths are C05's.                                     *)
+(* Blocks: BS slots each (64 in the code).  `fill[k]` = write index of the  *)
+(* attached tail block, a full block gets a successor (RFull ; RCasFull),   *)
+(* the attached chain is the blocks lo[k]..ep[k]; a drain detaches the     *)
+(* whole chain and goes through it block by block, newest first (dcur),    *)
+(* WAITING for each block until every claimed slot of it is acknowledged   *)
+(* (DQok's guard; RAck is the acknowledge of the claimed slot).            *)
+(* DrainWaitsFirstBlockOnly = TRUE is a named variant (not the code): the  *)
+(* wait is skipped for the blocks behind the detached tail; a block with a *)
+(* claimed, unacknowledged slot is then delivered only up to that slot and *)
+(* the samples behind it are `skipped` (NoSkippedSample fails).            *)
 (***************************************************************************)
 EXTENDS Naturals, Integers, Sequences, FiniteSets, TLC
 
@@ -44,6 +52,11 @@ CONSTANTS Recorders,   \* ids of recording threads (concurrent part)
                        \*   is first emptied into a private buffer with no lock held, the buffers are folded into
                        \*   the distributions afterwards under one lock (DFold); a render of ANOTHER thread in
                        \*   between reports less than was recorded (RenderFaithful / RenderBounds fail).
+CONSTANTS BS,          \* slots per bucket block (64; 2 in the exhaustive block scope)
+          DrainWaitsFirstBlockOnly,  \* FALSE: as coded. TRUE: witness variant, see above
+          CF07aFixed   \* FALSE: the code as it is -- a failed clear_with CAS ends the drain of that key (finding CF07a).
+                       \* TRUE: the repaired code (notes/c07_fix_CF07a.diff): the drain loads the tail again and retries.
+                       \* (ONE switch: checks/c07.py reads VERIF_C07_CF07A_FIXED and writes it into every configuration.)
 
 LE  == 100      \* label-name id of `le`
 QU  == 101      \* label-name id of `quantile`
@@ -57,9 +70,12 @@ VARIABLES
   pend,       \* key -> bag of samples in the attached block            (sparse: default empty)
   dist,       \* key -> bag folded into the distribution; DOMAIN = distributions that exist
   att, ep,    \* key -> tail non-null (default FALSE) ; key -> blocks created so far (default 0)
+  fill, lo,   \* key -> slots claimed in the attached tail block ; first block of the attached chain (defaults 0)
   lock,       \* holder of the distributions write lock inside a per-key drain (0: free)
-  dkey, dst, det, dep,  \* the per-key drain in progress: key, "none"|"det"|"qok", detached bag, its block number
-  rpc, rk, rv, rep,     \* recorders: "idle"|"fixed", key, sample, block number fixed
+  dkey, dst, det, dep,  \* the per-key drain in progress: key, "none"|"load"|"retry"|"det"|"qok" (of block dcur), detached bag, number of the tail block loaded / detached
+  dlo, dcur,            \*   oldest block of the detached chain ; block being waited for / delivered
+  rpc, rk, rv, rep,     \* recorders: "idle"|"fixed"|"claimed"|"full"|"retry", key, sample, block number fixed
+  after,                \*   (variant only) recorder -> samples claimed behind its unacknowledged slot in the same block
   dpc, dop, todo, csnap, gsnap,  \* drainers: "idle"|"drain"|"folded", "render"|"upkeep", keys still to drain, counter/gauge snapshot
   buf,        \* drainer -> key -> bag: private buffer of the two-phase variant (always empty when LockedDrain)
   nbeg,       \* (history) drainer -> key -> samples counted for the key when its render began
@@ -74,13 +90,17 @@ VARIABLES
               \*          began and at most those recorded when it ended
   crec,       \* key -> bag of every sample ever claimed
   lost,       \* key -> bag of samples lost to CF05a
+  skipped,    \* key -> bag of samples a drain passed over (only the DrainWaitsFirstBlockOnly variant can)
+  cfail,      \* some drain skipped a bucket because its clear_with CAS failed (candidate finding CF07a)
   cinc, cabs, \* counter key -> sum of increments ; highest absolute value (sparse, defaults 0 / -1)
   dfirst      \* name -> first <<description, unit>> ever given
 
 vScal  == <<ctr, gau, cinc, cabs>>
-vHist  == <<hreg, pend, dist, att, ep, crec, lost>>
-vDrain == <<lock, dkey, dst, det, dep>>
-vRec   == <<rpc, rk, rv, rep>>
+hBkt   == <<att, ep, fill, lo>>
+hAcc   == <<crec, lost, skipped, cfail>>
+vHist  == <<hreg, pend, dist, hBkt, hAcc>>
+vDrain == <<lock, dkey, dst, det, dep, dlo, dcur>>
+vRec   == <<rpc, rk, rv, rep, after>>
 vDr    == <<dpc, dop, todo, csnap, gsnap, buf, nbeg>>
 vDirty == <<upd, pclean>>
 vOut   == <<out, twiceOK, faithful, bounded>>
@@ -99,6 +119,7 @@ RECURSIVE SumF(_, _)
 SumF(f, S) == IF S = {} THEN 0 ELSE LET x == CHOOSE y \in S : TRUE IN f[x] + SumF(f, S \ {x})
 BAdd(b, v)  == [x \in DOMAIN b \cup {v} |-> Get(b, x, 0) + (IF x = v THEN 1 ELSE 0)]
 BPlus(a, b) == [x \in DOMAIN a \cup DOMAIN b |-> Get(a, x, 0) + Get(b, x, 0)]
+BMinus(a, b) == [x \in {y \in DOMAIN a : a[y] > Get(b, y, 0)} |-> a[x] - Get(b, x, 0)]
 BCount(b)   == SumF(b, DOMAIN b)
 BSum(b)     == SumF([x \in DOMAIN b |-> x * b[x]], DOMAIN b)
 BLe(b, u)   == SumF(b, {x \in DOMAIN b : x <= u})    \* Histogram: samples <= bound (cumulative)
@@ -151,10 +172,11 @@ Expo(c, g, d) ==
 \* ---- the property, read off an exposition `o` (independent of how Expo builds it)
 ValsOf(o, n, sfx, labels) ==
   {s.val : s \in {t \in UNION {f.samples : f \in {g \in o : g.name = n}} : t.sfx = sfx /\ t.labels = labels}}
-Complete(o) ==
+\* (H: the histogram keys the call really drained -- all of them unless a clear_with CAS failed, CF07a)
+CompleteOn(o, H) ==
   /\ \A k \in DOMAIN ctr : ValsOf(o, k[1], "", Merged(k)) = {ctr[k]}
   /\ \A k \in DOMAIN gau : ValsOf(o, k[1], "", Merged(k)) = {gau[k]}
-  /\ \A k \in hreg :
+  /\ \A k \in hreg \cap H :
        /\ ValsOf(o, k[1], "count", Merged(k)) = {BCount(Get(crec, k, EF)) - BCount(Get(lost, k, EF))}
        /\ ValsOf(o, k[1], "sum", Merged(k))   = {BSum(Get(crec, k, EF)) - BSum(Get(lost, k, EF))}
 
@@ -162,10 +184,11 @@ Complete(o) ==
 InitWith(c) ==
   /\ cfg = c
   /\ ctr = EF /\ gau = EF /\ cinc = EF /\ cabs = EF
-  /\ hreg = {} /\ pend = EF /\ dist = EF /\ att = EF /\ ep = EF /\ crec = EF /\ lost = EF
-  /\ lock = 0 /\ dkey = NoKey /\ dst = "none" /\ det = EF /\ dep = 0
+  /\ hreg = {} /\ pend = EF /\ dist = EF /\ att = EF /\ ep = EF /\ fill = EF /\ lo = EF
+  /\ crec = EF /\ lost = EF /\ skipped = EF /\ cfail = FALSE
+  /\ lock = 0 /\ dkey = NoKey /\ dst = "none" /\ det = EF /\ dep = 0 /\ dlo = 0 /\ dcur = 0
   /\ rpc = [p \in Recorders |-> "idle"] /\ rk = [p \in Recorders |-> NoKey]
-  /\ rv = [p \in Recorders |-> 0] /\ rep = [p \in Recorders |-> 0]
+  /\ rv = [p \in Recorders |-> 0] /\ rep = [p \in Recorders |-> 0] /\ after = [p \in Recorders |-> EF]
   /\ dpc = [d \in Drainers |-> "idle"] /\ dop = [d \in Drainers |-> "none"]
   /\ todo = [d \in Drainers |-> {}] /\ csnap = [d \in Drainers |-> EF] /\ gsnap = [d \in Drainers |-> EF]
   /\ buf = [d \in Drainers |-> EF] /\ nbeg = [d \in Drainers |-> EF]
@@ -189,7 +212,7 @@ RegisterG(k) ==
   /\ Dirty /\ UNCHANGED <<cfg, ctr, cinc, cabs, vHist, vDrain, vRec, vDr, vOut, vDesc>>
 RegisterH(k) ==
   /\ hreg' = hreg \cup {k}
-  /\ Dirty /\ UNCHANGED <<cfg, vScal, pend, dist, att, ep, crec, lost, vDrain, vRec, vDr, vOut, vDesc>>
+  /\ Dirty /\ UNCHANGED <<cfg, vScal, pend, dist, hBkt, hAcc, vDrain, vRec, vDr, vOut, vDesc>>
 
 (* counters: increment = fetch_add (wrapping), absolute = fetch_max *)
 IncA(k, n) ==
@@ -215,53 +238,97 @@ DescribeA(n, d, u) ==
   /\ Dirty /\ UNCHANGED <<cfg, vScal, vHist, vDrain, vRec, vDr, vOut>>
 
 -----------------------------------------------------------------------------
-(* Histogram::record(), split around the slot claim                        *)
+(* Histogram::record() = AtomicBucket::push, at the granularity            *)
+(*   RFix (tail load / first-block CAS) ; RClaim* (write.fetch_add) ;      *)
+(*   RAck (slot written, read.fetch_or) -- or RFull ; RCasFull ; retry     *)
 
+KAtt(k) == Get(att, k, FALSE)
 \* the pusher fixes its block: tail.load() saw a block, or its CAS of a first block ran
 RFix(p, k, v) ==
-  /\ rpc[p] = "idle" /\ k \in hreg
+  /\ k \in hreg
+  /\ rpc[p] = "idle" \/ (rpc[p] = "retry" /\ rk[p] = k /\ rv[p] = v)
   /\ rpc' = [rpc EXCEPT ![p] = "fixed"] /\ rk' = [rk EXCEPT ![p] = k] /\ rv' = [rv EXCEPT ![p] = v]
-  /\ att' = Upd(att, k, TRUE, FALSE)
-  /\ LET e == IF Get(att, k, FALSE) THEN Get(ep, k, 0) ELSE Get(ep, k, 0) + 1 IN
-       /\ ep' = Upd(ep, k, e, 0)
-       /\ rep' = [rep EXCEPT ![p] = e]
-  /\ UNCHANGED <<cfg, vScal, hreg, pend, dist, crec, lost, vDrain, vDr, vDirty, vOut, vDesc>>
+  /\ IF KAtt(k)
+       THEN rep' = [rep EXCEPT ![p] = Get(ep, k, 0)] /\ UNCHANGED hBkt
+       ELSE /\ att' = Upd(att, k, TRUE, FALSE)
+            /\ ep' = Upd(ep, k, Get(ep, k, 0) + 1, 0)
+            /\ lo' = Upd(lo, k, Get(ep, k, 0) + 1, 0)
+            /\ fill' = Upd(fill, k, 0, 0)
+            /\ rep' = [rep EXCEPT ![p] = Get(ep, k, 0) + 1]
+  /\ UNCHANGED <<cfg, vScal, hreg, pend, dist, hAcc, vDrain, after, vDr, vDirty, vOut, vDesc>>
 
-Attached(p) == Get(att, rk[p], FALSE) /\ rep[p] = Get(ep, rk[p], 0)
-InDrain(p)  == dst # "none" /\ dkey = rk[p] /\ rep[p] = dep
-Claimed(p)  == crec' = Upd(crec, rk[p], BAdd(Get(crec, rk[p], EF), rv[p]), EF)
-RDone(p)    == rpc' = [rpc EXCEPT ![p] = "idle"] /\ rk' = [rk EXCEPT ![p] = NoKey]
-               /\ rv' = [rv EXCEPT ![p] = 0] /\ rep' = [rep EXCEPT ![p] = 0]
+Attached(p) == KAtt(rk[p]) /\ rep[p] = Get(ep, rk[p], 0)                               \* its block is the tail
+InChain(p)  == KAtt(rk[p]) /\ Get(lo, rk[p], 0) <= rep[p] /\ rep[p] <= Get(ep, rk[p], 0)  \* ... is reachable from the tail
+\* its block is the tail block of the chain being drained, and the drain is still at that block
+TailOpen(p) == dst \in {"det", "qok"} /\ dkey = rk[p] /\ rep[p] = dep /\ dcur = dep
+Claimed(p)  == /\ crec' = Upd(crec, rk[p], BAdd(Get(crec, rk[p], EF), rv[p]), EF)
+               /\ rpc' = [rpc EXCEPT ![p] = "claimed"]
 
-\* the slot is claimed in a block that is still attached, or detached but not yet delivered
+\* a slot is claimed in the attached tail block (room left), or in the detached tail block before it is delivered
 RClaimIn(p) ==
   /\ rpc[p] = "fixed"
-  /\ \/ /\ Attached(p)
+  /\ \/ /\ Attached(p) /\ Get(fill, rk[p], 0) < BS
         /\ pend' = Upd(pend, rk[p], BAdd(Get(pend, rk[p], EF), rv[p]), EF)
+        /\ fill' = Upd(fill, rk[p], Get(fill, rk[p], 0) + 1, 0)
+        /\ after' = IF DrainWaitsFirstBlockOnly
+                      THEN [q \in Recorders |-> IF q # p /\ rpc[q] = "claimed" /\ rk[q] = rk[p] /\ rep[q] = rep[p]
+                                                  THEN BAdd(after[q], rv[p]) ELSE after[q]]
+                      ELSE after
         /\ UNCHANGED det
-     \/ /\ ~Attached(p) /\ InDrain(p)
+     \/ /\ ~InChain(p) /\ TailOpen(p)
         /\ det' = BAdd(det, rv[p])
-        /\ UNCHANGED pend
-  /\ Claimed(p) /\ RDone(p) /\ Dirty
-  /\ UNCHANGED <<cfg, vScal, hreg, dist, att, ep, lost, lock, dkey, dst, dep, vDr, vOut, vDesc>>
+        /\ UNCHANGED <<pend, fill, after>>
+  /\ Claimed(p) /\ Dirty
+  /\ UNCHANGED <<cfg, vScal, hreg, dist, att, ep, lo, lost, skipped, cfail, lock, dkey, dst, dep, dlo, dcur, rk, rv, rep, vDr, vOut, vDesc>>
 
 \* CF05a: the slot is claimed in a detached block after the drain's quiescence check of it
 RClaimLost(p) ==
-  /\ rpc[p] = "fixed" /\ ~Attached(p)
-  /\ InDrain(p) => dst = "qok"
+  /\ rpc[p] = "fixed" /\ ~InChain(p)
+  /\ TailOpen(p) => dst = "qok"
   /\ lost' = Upd(lost, rk[p], BAdd(Get(lost, rk[p], EF), rv[p]), EF)
-  /\ Claimed(p) /\ RDone(p)
-  /\ UNCHANGED <<cfg, vScal, hreg, pend, dist, att, ep, vDrain, vDr, vDirty, vOut, vDesc>>
+  /\ Claimed(p)
+  /\ UNCHANGED <<cfg, vScal, hreg, pend, dist, hBkt, skipped, cfail, vDrain, rk, rv, rep, after, vDr, vDirty, vOut, vDesc>>
+
+\* the claim fails: the block is full (always so for a block behind the tail; for a block that is no
+\* longer reachable the model does not keep its fill level: either outcome is a behaviour)
+RFull(p) ==
+  /\ rpc[p] = "fixed"
+  /\ \/ Attached(p) /\ Get(fill, rk[p], 0) >= BS
+     \/ InChain(p) /\ ~Attached(p)
+     \/ ~InChain(p)
+  /\ rpc' = [rpc EXCEPT ![p] = "full"]
+  /\ UNCHANGED <<cfg, vScal, vHist, vDrain, rk, rv, rep, after, vDr, vDirty, vOut, vDesc>>
+
+\* tail.compare_exchange(full block, new block linked to it): on success the pusher claims in the new block
+RCasFull(p) ==
+  /\ rpc[p] = "full"
+  /\ IF Attached(p)
+       THEN /\ ep' = Upd(ep, rk[p], rep[p] + 1, 0) /\ fill' = Upd(fill, rk[p], 0, 0)
+            /\ rep' = [rep EXCEPT ![p] = @ + 1] /\ rpc' = [rpc EXCEPT ![p] = "fixed"]
+            /\ UNCHANGED <<att, lo>>
+       ELSE /\ rpc' = [rpc EXCEPT ![p] = "retry"] /\ rep' = [rep EXCEPT ![p] = 0]
+            /\ UNCHANGED hBkt
+  /\ UNCHANGED <<cfg, vScal, hreg, pend, dist, hAcc, vDrain, rk, rv, after, vDr, vDirty, vOut, vDesc>>
+
+\* the claimed slot is written and acknowledged; record() returns
+RAck(p) ==
+  /\ rpc[p] = "claimed"
+  /\ rpc' = [rpc EXCEPT ![p] = "idle"] /\ rk' = [rk EXCEPT ![p] = NoKey]
+  /\ rv' = [rv EXCEPT ![p] = 0] /\ rep' = [rep EXCEPT ![p] = 0] /\ after' = [after EXCEPT ![p] = EF]
+  /\ UNCHANGED <<cfg, vScal, vHist, vDrain, vDr, vDirty, vOut, vDesc>>
 
 \* record() run to completion while nothing else runs (sequential histories)
 RecordA(k, v) ==
   /\ Quiet
   /\ hreg' = hreg \cup {k}
   /\ att' = Upd(att, k, TRUE, FALSE)
-  /\ ep' = IF Get(att, k, FALSE) THEN ep ELSE Upd(ep, k, Get(ep, k, 0) + 1, 0)
+  /\ IF KAtt(k) /\ Get(fill, k, 0) < BS
+       THEN fill' = Upd(fill, k, Get(fill, k, 0) + 1, 0) /\ UNCHANGED <<ep, lo>>
+       ELSE /\ ep' = Upd(ep, k, Get(ep, k, 0) + 1, 0) /\ fill' = Upd(fill, k, 1, 0)
+            /\ lo' = IF KAtt(k) THEN lo ELSE Upd(lo, k, Get(ep, k, 0) + 1, 0)
   /\ pend' = Upd(pend, k, BAdd(Get(pend, k, EF), v), EF)
   /\ crec' = Upd(crec, k, BAdd(Get(crec, k, EF), v), EF)
-  /\ Dirty /\ UNCHANGED <<cfg, vScal, dist, lost, vDrain, vRec, vDr, vOut, vDesc>>
+  /\ Dirty /\ UNCHANGED <<cfg, vScal, dist, lost, skipped, cfail, vDrain, vRec, vDr, vOut, vDesc>>
 
 -----------------------------------------------------------------------------
 (* render() / run_upkeep()                                                 *)
@@ -269,31 +336,34 @@ RecordA(k, v) ==
 \* bookkeeping of a finished render producing `o`; cleanSince: no update since it began
 \* samples accounted for per histogram key right now (everything claimed, minus the CF05a losses)
 NowCounts == [k \in hreg |-> BCount(Get(crec, k, EF)) - BCount(Get(lost, k, EF))]
-\* every series that existed when the render began shows a count between `lo` and what is recorded now
-Within(o, lo) ==
-  \A k \in DOMAIN lo :
+\* every series that existed when the render began shows a count between `low` and what is recorded now
+Within(o, low) ==
+  \A k \in DOMAIN low :
     /\ ValsOf(o, k[1], "count", Merged(k)) # {}
-    /\ \A c \in ValsOf(o, k[1], "count", Merged(k)) : lo[k] <= c /\ c <= NowCounts[k]
-Finish(o, cleanSince, lo) ==
+    /\ \A c \in ValsOf(o, k[1], "count", Merged(k)) : low[k] <= c /\ c <= NowCounts[k]
+\* `low` = what was counted per key when the render began, restricted to the keys it really drained:
+\* a key whose clear_with CAS failed (DCasFail, candidate finding CF07a) is not asserted for this render,
+\* and this render is not compared with the next one.
+Finish(o, cleanSince, low) ==
   /\ out' = o
   /\ twiceOK' = (twiceOK /\ (pclean => o = out))
-  /\ faithful' = (faithful /\ (cleanSince => Complete(o)))
-  /\ bounded' = (bounded /\ Within(o, lo))
-  /\ pclean' = cleanSince
+  /\ faithful' = (faithful /\ (cleanSince => CompleteOn(o, DOMAIN low)))
+  /\ bounded' = (bounded /\ Within(o, low))
+  /\ pclean' = (cleanSince /\ hreg \subseteq DOMAIN low)
 
 \* drain_histograms_to_distributions run to completion: every registered histogram gets its
 \* distribution, every bucket is emptied into it (clear_with)
 DrainedDist == [k \in hreg |-> BPlus(Get(dist, k, EF), Get(pend, k, EF))]
-DrainAll == dist' = DrainedDist /\ pend' = EF /\ att' = EF
+DrainAll == dist' = DrainedDist /\ pend' = EF /\ att' = EF /\ fill' = EF /\ lo' = EF
 
 UpkeepA ==
   /\ Quiet /\ DrainAll
-  /\ UNCHANGED <<cfg, vScal, hreg, ep, crec, lost, vDrain, vRec, vDr, vDirty, vOut, vDesc>>
+  /\ UNCHANGED <<cfg, vScal, hreg, ep, hAcc, vDrain, vRec, vDr, vDirty, vOut, vDesc>>
 
 RenderA ==
   /\ Quiet /\ DrainAll
   /\ Finish(Expo(ctr, gau, DrainedDist), TRUE, NowCounts)
-  /\ UNCHANGED <<cfg, vScal, hreg, ep, crec, lost, vDrain, vRec, vDr, upd, vDesc>>
+  /\ UNCHANGED <<cfg, vScal, hreg, ep, hAcc, vDrain, vRec, vDr, upd, vDesc>>
 
 \* ---- the same calls at the granularity of the per-key drains (concurrent part)
 
@@ -316,31 +386,71 @@ DNull(d) ==
        /\ ~Get(att, k, FALSE)
        /\ dist' = IF k \in DOMAIN dist \/ ~LockedDrain THEN dist ELSE Put(dist, k, EF)
        /\ todo' = [todo EXCEPT ![d] = @ \ {k}]
-  /\ UNCHANGED <<cfg, vScal, hreg, pend, att, ep, crec, lost, vDrain, vRec, dpc, dop, csnap, gsnap, buf, nbeg, vDirty, vOut, vDesc>>
+  /\ UNCHANGED <<cfg, vScal, hreg, pend, hBkt, hAcc, vDrain, vRec, dpc, dop, csnap, gsnap, buf, nbeg, vDirty, vOut, vDesc>>
 
-\* write lock taken, distribution created if missing, clear_with: tail CAS to null
-DDetach(d, k) ==
-  /\ dpc[d] = "drain" /\ lock = 0 /\ k \in todo[d] /\ Get(att, k, FALSE)
-  /\ lock' = d /\ dkey' = k /\ dst' = "det" /\ det' = Get(pend, k, EF) /\ dep' = Get(ep, k, 0)
-  /\ pend' = Upd(pend, k, EF, EF) /\ att' = Upd(att, k, FALSE, FALSE)
+\* write lock taken, distribution created if missing, clear_with: tail.load() sees a block
+DLoad(d, k) ==
+  /\ dpc[d] = "drain" /\ lock = 0 /\ k \in todo[d] /\ KAtt(k)
+  /\ lock' = d /\ dkey' = k /\ dst' = "load" /\ dep' = Get(ep, k, 0)
   /\ dist' = IF k \in DOMAIN dist \/ ~LockedDrain THEN dist ELSE Put(dist, k, EF)
-  /\ UNCHANGED <<cfg, vScal, hreg, ep, crec, lost, vRec, vDr, vDirty, vOut, vDesc>>
+  /\ UNCHANGED <<cfg, vScal, hreg, pend, hBkt, hAcc, det, dlo, dcur, vRec, vDr, vDirty, vOut, vDesc>>
 
-\* the is_quiesced() that succeeds (every claimed slot of the block acknowledged)
+\* clear_with: tail.compare_exchange(loaded block, null) succeeds: the whole chain is detached
+DDetach(d) ==
+  /\ lock = d /\ dst = "load" /\ Get(ep, dkey, 0) = dep
+  /\ dst' = "det" /\ det' = Get(pend, dkey, EF)
+  /\ dcur' = dep /\ dlo' = Get(lo, dkey, 0)
+  /\ pend' = Upd(pend, dkey, EF, EF) /\ att' = Upd(att, dkey, FALSE, FALSE)
+  /\ fill' = Upd(fill, dkey, 0, 0) /\ lo' = Upd(lo, dkey, 0, 0)
+  /\ UNCHANGED <<cfg, vScal, hreg, dist, ep, hAcc, lock, dkey, dep, vRec, vDr, vDirty, vOut, vDesc>>
+
+\* ... fails: a pusher replaced the (full) tail block since the load.  clear_with returns without
+\* delivering anything: this call does not drain the key at all (candidate finding CF07a: the render
+\* reports none of the key's pending samples; `nbeg` no longer bounds the key from below).
+DCasFail(d) ==
+  /\ lock = d /\ dst = "load" /\ Get(ep, dkey, 0) # dep
+  /\ IF CF07aFixed
+       THEN /\ dst' = "retry"          \* repaired: still inside clear_with, lock held
+            /\ UNCHANGED <<lock, dkey, dep, todo, nbeg, cfail>>
+       ELSE /\ lock' = 0 /\ dkey' = NoKey /\ dst' = "none" /\ dep' = 0
+            /\ todo' = [todo EXCEPT ![d] = @ \ {dkey}]
+            /\ nbeg' = [nbeg EXCEPT ![d] = [k \in DOMAIN @ \ {dkey} |-> @[k]]]
+            /\ cfail' = TRUE
+  /\ UNCHANGED <<cfg, vScal, hreg, pend, dist, hBkt, crec, lost, skipped, det, dlo, dcur, vRec, dpc, dop, csnap, gsnap, buf, vDirty, vOut, vDesc>>
+
+\* (repaired code only) the tail is loaded again (it cannot be null: only pushers moved it)
+DReload(d) ==
+  /\ CF07aFixed /\ lock = d /\ dst = "retry"
+  /\ dst' = "load" /\ dep' = Get(ep, dkey, 0)
+  /\ UNCHANGED <<cfg, vScal, vHist, lock, dkey, det, dlo, dcur, vRec, vDr, vDirty, vOut, vDesc>>
+
+\* recorders with a claimed, unacknowledged slot in block b of the chain being drained
+Stalled(b) == {p \in Recorders : rpc[p] = "claimed" /\ rk[p] = dkey /\ rep[p] = b}
+\* the is_quiesced() of block dcur that succeeds: every claimed slot of the block is acknowledged.
+\* (While it does not hold the drain spins: no step.)  The variant does not wait behind the tail.
 DQok(d) ==
   /\ lock = d /\ dst = "det"
+  /\ Stalled(dcur) = {} \/ (DrainWaitsFirstBlockOnly /\ dcur < dep)
   /\ dst' = "qok"
-  /\ UNCHANGED <<cfg, vScal, vHist, lock, dkey, det, dep, vRec, vDr, vDirty, vOut, vDesc>>
+  /\ UNCHANGED <<cfg, vScal, vHist, lock, dkey, det, dep, dlo, dcur, vRec, vDr, vDirty, vOut, vDesc>>
 
-\* data(): length read; record_samples(); lock released
+\* (variant) what a block with an unacknowledged slot does not deliver: that slot and everything behind it
+Behind(b) == IF Stalled(b) = {} \/ ~DrainWaitsFirstBlockOnly \/ b = dep THEN EF
+             ELSE LET p == CHOOSE q \in Stalled(b) : \A r \in Stalled(b) : BCount(after[q]) >= BCount(after[r])
+                  IN BAdd(after[p], rv[p])
+\* data() of block dcur: length read; record_samples(); then the next (older) block, or lock released
 DDeliver(d) ==
   /\ lock = d /\ dst = "qok"
-  /\ IF LockedDrain
-       THEN dist' = Put(dist, dkey, BPlus(dist[dkey], det)) /\ UNCHANGED buf
-       ELSE buf' = [buf EXCEPT ![d] = Upd(@, dkey, BPlus(Get(@, dkey, EF), det), EF)] /\ UNCHANGED dist
-  /\ todo' = [todo EXCEPT ![d] = @ \ {dkey}]
-  /\ lock' = 0 /\ dkey' = NoKey /\ dst' = "none" /\ det' = EF /\ dep' = 0
-  /\ UNCHANGED <<cfg, vScal, hreg, pend, att, ep, crec, lost, vRec, dpc, dop, csnap, gsnap, nbeg, vDirty, vOut, vDesc>>
+  /\ skipped' = IF Behind(dcur) = EF THEN skipped ELSE Upd(skipped, dkey, BPlus(Get(skipped, dkey, EF), Behind(dcur)), EF)
+  /\ IF dcur > dlo
+       THEN /\ dcur' = dcur - 1 /\ dst' = "det" /\ det' = BMinus(det, Behind(dcur))
+            /\ UNCHANGED <<dist, buf, todo, lock, dkey, dep, dlo>>
+       ELSE /\ IF LockedDrain
+                 THEN dist' = Put(dist, dkey, BPlus(dist[dkey], BMinus(det, Behind(dcur)))) /\ UNCHANGED buf
+                 ELSE buf' = [buf EXCEPT ![d] = Upd(@, dkey, BPlus(Get(@, dkey, EF), BMinus(det, Behind(dcur))), EF)] /\ UNCHANGED dist
+            /\ todo' = [todo EXCEPT ![d] = @ \ {dkey}]
+            /\ lock' = 0 /\ dkey' = NoKey /\ dst' = "none" /\ det' = EF /\ dep' = 0 /\ dlo' = 0 /\ dcur' = 0
+  /\ UNCHANGED <<cfg, vScal, hreg, pend, hBkt, crec, lost, cfail, vRec, dpc, dop, csnap, gsnap, nbeg, vDirty, vOut, vDesc>>
 
 \* (two-phase variant only) every bucket emptied: write lock taken once, every handle's distribution created
 \* if missing, the private buffer folded in.  (`lock` serialises the bucket drains in this variant too: a
@@ -350,7 +460,7 @@ DFold(d) ==
   /\ dist' = [k \in DOMAIN dist \cup hreg |-> BPlus(Get(dist, k, EF), Get(buf[d], k, EF))]
   /\ buf' = [buf EXCEPT ![d] = EF]
   /\ dpc' = [dpc EXCEPT ![d] = "folded"]
-  /\ UNCHANGED <<cfg, vScal, hreg, pend, att, ep, crec, lost, vDrain, vRec, dop, todo, csnap, gsnap, nbeg, vDirty, vOut, vDesc>>
+  /\ UNCHANGED <<cfg, vScal, hreg, pend, hBkt, hAcc, vDrain, vRec, dop, todo, csnap, gsnap, nbeg, vDirty, vOut, vDesc>>
 
 \* every key drained; render(): distributions.read().clone() and formatting
 DEnd(d) ==
@@ -372,7 +482,11 @@ RECURSIVE InBufs(_, _)
 InBufs(k, D) == IF D = {} THEN EF ELSE LET d == CHOOSE x \in D : TRUE IN BPlus(Get(buf[d], k, EF), InBufs(k, D \ {d}))
 Conservation ==
   \A k \in hreg :
-    Get(crec, k, EF) = BPlus(BPlus(BPlus(Get(pend, k, EF), InDet(k)), InBufs(k, Drainers)), BPlus(Get(dist, k, EF), Get(lost, k, EF)))
+    Get(crec, k, EF) = BPlus(BPlus(BPlus(Get(pend, k, EF), InDet(k)), InBufs(k, Drainers)), BPlus(BPlus(Get(dist, k, EF), Get(lost, k, EF)), Get(skipped, k, EF)))
+\* a drain never passes over a sample (it waits for every block of the detached chain)
+NoSkippedSample == skipped = EF
+\* (strict; fails in the block scope: CF07a) no drain ever skips a bucket
+NoSkippedDrain == ~cfail
 \* the strict property (no allowance for CF05a)
 StrictConservation == Conservation /\ lost = EF
 \* a render with no update since it began reported count / sum / counter / gauge values exactly
@@ -400,9 +514,10 @@ LabelsOK ==
     /\ \A l \in s.labels : l[1] = QU => (f.type = "summary" /\ s.sfx = "")
 TypeOK ==
   /\ lock \in Drainers \cup {0}
-  /\ dst \in {"none", "det", "qok"}
+  /\ dst \in {"none", "load", "retry", "det", "qok"}
   /\ (dst = "none") <=> (lock = 0)
   /\ DOMAIN dist \subseteq hreg /\ DOMAIN pend \subseteq hreg
-  /\ \A p \in Recorders : rpc[p] \in {"idle", "fixed"}
+  /\ \A p \in Recorders : rpc[p] \in {"idle", "fixed", "claimed", "full", "retry"}
+  /\ (dst \in {"det", "qok"}) => (dlo <= dcur /\ dcur <= dep)
   /\ \A d \in Drainers : dpc[d] \in {"idle", "drain", "folded"} /\ todo[d] \subseteq hreg
 =============================================================================
